@@ -200,21 +200,19 @@ def probe_recipe(kind, p, t, elem, rng, fam, tier='quick'):
     n = len(ins)
     g = lambda j: ins[j % n]
     a, b, c = g(0), g(1), g(2)
-    calls = [{'op': 'probes_qp', 'pts': []},
+    calls = [{'op': 'probes_qp', 'pts': [], 'slow': 1},
              {'op': 'probes', 'pts': [g(j) for j in range(10)]},
-             {'op': 'interpolator', 'pts': [a]},
-             {'op': 'interpolator', 'pts': [b]},                     # equally many DIFFERENT points
-             {'op': 'interpolator', 'pts': [c]},
+             {'op': 'interpolator', 'pts': [a], 'slow': 1},
+             {'op': 'interpolator', 'pts': [b], 'slow': 1},          # equally many DIFFERENT points
              {'op': 'interpolator', 'pts': [a, b, a, c]},            # repetition
              {'op': 'interpolator', 'pts': [c, a, b]},               # permutation
              {'op': 'probes', 'pts': [b, a, c]},
-             {'op': 'probes', 'pts': [g(int(j)) for j in rng.permutation(20)[:10]]},
              # ---- call histories with IN-PLACE modified arguments: the same array object ('buf') is handed to the
              # same handle again after its contents were overwritten / permuted / incremented / one entry changed
-             {'op': 'interpolator', 'pts': [g(3), g(4), g(5)], 'buf': 'A'},
+             {'op': 'interpolator', 'pts': [g(3), g(4), g(5)], 'buf': 'A', 'slow': 1},
              {'op': 'interpolator', 'pts': [g(4), g(5), g(3)], 'buf': 'A', 'how': 'assign'},       # column permutation
              {'op': 'interpolator', 'pts': [g(6), g(5), g(3)], 'buf': 'A', 'how': 'entry'},        # one entry overwritten
-             {'op': 'interpolator', 'pts': [g(7), g(8), g(9)], 'buf': 'A', 'how': 'iadd'},         # X += dX
+             {'op': 'interpolator', 'pts': [g(7), g(8), g(9)], 'buf': 'A', 'how': 'iadd', 'slow': 1},   # X += dX
              {'op': 'interpolator', 'pts': [g(3), g(4), g(5)], 'buf': 'A', 'how': 'assign'},       # back to the first set
              {'op': 'probes', 'pts': [g(12), g(13)], 'buf': 'B'},
              {'op': 'probes', 'pts': [g(14), g(12)], 'buf': 'B', 'how': 'iadd'},
@@ -222,7 +220,7 @@ def probe_recipe(kind, p, t, elem, rng, fam, tier='quick'):
              {'op': 'point_source', 'pts': [g(15)], 'buf': 'C', 'how': 'assign'},
              # ---- COMPLEX (and integer) coefficient vectors: real and imaginary parts are validated separately
              {'op': 'interpolator', 'pts': [a, b, c], 'coef': 'complex'},
-             {'op': 'interpolator', 'pts': [g(5)], 'coef': 'complex'},
+             {'op': 'interpolator', 'pts': [g(5)], 'coef': 'complex', 'slow': 1},
              {'op': 'probes', 'pts': [c, a], 'coef': 'complex'},
              {'op': 'probes_qp', 'pts': [], 'coef': 'complex'},
              {'op': 'point_source', 'pts': [b], 'coef': 'complex'},
@@ -234,10 +232,9 @@ def probe_recipe(kind, p, t, elem, rng, fam, tier='quick'):
              {'op': 'point_source_qp1', 'j': int(rng.integers(0, 1000))},
              {'op': 'probes', 'pts': [a, oth[-1]]},                  # one point far outside: must raise
              {'op': 'point_source', 'pts': [a]},                     # scalar elements only (skipped otherwise)
-             {'op': 'point_source', 'pts': [g(11)]},
              {'op': 'interpolator_nd', 'pts': [g(j) for j in range(6)]}]      # trailing axes (scalar elements only)
     if elem in SLOW:
-        calls = [calls[0], calls[2], calls[3], calls[9], calls[12]] + ([calls[5], calls[7]] if tier == 'thorough' else [])
+        calls = [cl for cl in calls if cl.get('slow')] + ([calls[4], calls[6]] if tier == 'thorough' else [])
     return {'driver': 'probe', 'kind': kind, 'family': fam, 'S': PSCALE, 'elem': elem,
             'p': np.asarray(p).astype(int).tolist(), 't': np.asarray(t).astype(int).tolist(),
             'yseed': int(rng.integers(0, 2 ** 31 - 1)), 'calls': calls}
